@@ -10,6 +10,8 @@ from typing import Any
 from typing import Iterator
 from typing import Mapping
 
+from .getitem import getitem
+
 
 class ReadOnlyChainMap(Mapping[str, object]):
     """Combine multiple mappings for sequential lookup."""
@@ -20,7 +22,9 @@ class ReadOnlyChainMap(Mapping[str, object]):
     def __getitem__(self, key: str) -> object:
         for mapping in self._maps:
             try:
-                return mapping[key]
+                # Not `mapping[key]`. A missing key must not be added to a layer
+                # that is a `defaultdict`.
+                return getitem(mapping, key)
             except KeyError:
                 pass
         raise KeyError(key)
